@@ -82,6 +82,9 @@ type Spec struct {
 	PreTasks    int  `json:"pre_tasks,omitempty"`
 	PreMaxPar   int  `json:"pre_maxpar,omitempty"`
 	SerialMask  int  `json:"serial_mask,omitempty"`  // bit g set: graph g of a shared-task workload runs in serial mode
+	WrapSkip    bool `json:"wrap_skip,omitempty"`    // ErrorSkipParents is returned wrapped in another error (fmt.Errorf("...: %w", ...))
+	Percent     bool `json:"percent,omitempty"`      // graph name and task IDs contain a percent sign
+	TickerZero  bool `json:"ticker_zero,omitempty"`  // Graph.TickerDuration = 0 (no polling delay)
 	PreFail     bool `json:"pre_fail,omitempty"`     // one task of the preliminary run fails: the graph has recorded an error
 	Deadline    bool `json:"deadline,omitempty"`     // the context ends with DeadlineExceeded instead of Canceled (custom Context)
 	CtxErrs     bool `json:"ctx_errs,omitempty"`     // failing tasks return errors that wrap context.Canceled / DeadlineExceeded (their own timeouts)
@@ -511,6 +514,9 @@ func (r *runner) taskFn(i int) getoptions.CommandFn {
 		case ERR:
 			return r.sentinels[i]
 		case SKIPPARENTS:
+			if r.spec.WrapSkip {
+				return fmt.Errorf("verif: t%d is up to date: %w", i, dag.ErrorSkipParents)
+			}
 			return dag.ErrorSkipParents
 		}
 		return nil
@@ -521,6 +527,9 @@ func (r *runner) taskFn(i int) getoptions.CommandFn {
 func (r *runner) build(gi int, tasks []*dag.Task) *dag.Graph {
 	g := dag.NewGraph(r.names[gi])
 	g.TickerDuration = 20 * time.Microsecond
+	if r.spec.TickerZero {
+		g.TickerDuration = 0
+	}
 	g.UseColor = false
 	if r.spec.PreTasks > 0 {
 		for k := 0; k < r.spec.PreTasks; k++ {
@@ -610,16 +619,16 @@ func Execute(spec *Spec) *Trace {
 	tasks := make([]*dag.Task, spec.N)
 	for i := range tasks {
 		if spec.Literal {
-			tasks[i] = &dag.Task{ID: dag.ID(fmt.Sprintf("t%d", i)), Fn: r.taskFn(i)}
+			tasks[i] = &dag.Task{ID: dag.ID(fmt.Sprintf("t%d", i) + TaskSuffix(spec)), Fn: r.taskFn(i)}
 		} else {
-			tasks[i] = dag.NewTask(fmt.Sprintf("t%d", i), r.taskFn(i))
+			tasks[i] = dag.NewTask(fmt.Sprintf("t%d", i)+TaskSuffix(spec), r.taskFn(i))
 		}
 	}
 	tr := &Trace{}
 	graphs := make([]*dag.Graph, ng)
 	hs := make([]*hookState, ng)
 	for gi := 0; gi < ng; gi++ {
-		r.names = append(r.names, fmt.Sprintf("g%d_%d", id, gi))
+		r.names = append(r.names, fmt.Sprintf("g%d_%d", id, gi)+TaskSuffix(spec))
 	}
 	for gi := 0; gi < ng; gi++ {
 		graphs[gi] = r.build(gi, tasks)
@@ -967,3 +976,11 @@ func (r *runner) finalExitsLocked() int {
 }
 
 var _ = bytes.NewBuffer
+
+// TaskSuffix - appended to graph names and task IDs (a percent sign must survive every message the library formats).
+func TaskSuffix(spec *Spec) string {
+	if spec.Percent {
+		return "%d50%"
+	}
+	return ""
+}
